@@ -449,3 +449,88 @@ VARIANTS += [
     F("C03", "delay-offset-not-a-unit", PYG, "    tDelayed = re.sub(clean, r'\\1( t - (' + str(offset) + r') )\\2', input)", "    tDelayed = re.sub(clean, r'\\1( t - ' + str(offset) + r' )\\2', input)", "SHIFT/delay"),
     F("C03", "init-reads-stop-time", PYG, "'init': lambda *args: parseExpression(args).replace(\", t\", \", self.starttime\"),", "'init': lambda *args: parseExpression(args).replace(\", t\", \", self.stoptime\"),", "SHIFT/init"),
 ]
+
+# ---------------------------------------------------------------------------- round 2: silent twins of the rules added for the second
+# batch of seeded changes (the seeded patches themselves are must-fire variants, see selftest.run_selftest)
+FUNCS = "BPTK_Py/sddsl/functions.py"
+GRAMMAR = "BPTK_Py/sdcompiler/parsers/smile/grammar.py"
+STOCKX = "BPTK_Py/sdcompiler/plugins/stockExpressions.py"
+SMFAC = "BPTK_Py/scenariomanager/scenario_manager_factory.py"
+SDRUN = "BPTK_Py/scenariorunners/sd_runner.py"
+ADAPT = "BPTK_Py/externalstateadapter/externalStateAdapter.py"
+COMPR = "BPTK_Py/util/statecompression.py"
+
+VARIANTS += [
+    # TRUTH: identity test on an operand is fine, so is a default
+    S("C02", "if-default-else-identity", FUNCS, "def If(if_, then_, else_):\n    from .operators import If\n    return If(if_, then_, else_)",
+      "def If(if_, then_, else_=None):\n    from .operators import If\n    return If(if_, then_, 0.0 if else_ is None else else_)"),
+    F("C02", "min-operand-compared", FUNCS, "def exp(x): return Exp(x)", "def exp(x):\n    if x == 0:\n        return 1.0\n    return Exp(x)", "TRUTH/exp/x"),
+    # PAREN: dropping the node for identifiers only is harmless
+    S("C03", "paren-identifier-bare", GRAMMAR,
+      "            _, Sentence, _ = visited_children[0]\n            return {\"name\": '()', \"type\": 'operator', \"args\": [Sentence]}",
+      "            _, Sentence, _ = visited_children[0]\n            if type(Sentence) is dict and Sentence[\"type\"] == \"identifier\":\n                return Sentence\n"
+      "            return {\"name\": '()', \"type\": 'operator', \"args\": [Sentence]}"),
+    F("C03", "paren-always-bare", GRAMMAR,
+      "            return {\"name\": '()', \"type\": 'operator', \"args\": [Sentence]}\n            # return Sentence",
+      "            return Sentence", "PAREN/visit_Atom/bare-sentence"),
+    # JOIN
+    S("C04", "join-fold-renamed", STOCKX, "        for index, elem in enumerate(reversed(rest)):\n            already_reduced = reduce(already_reduced,elem)",
+      "        for elem in reversed(rest):\n            already_reduced = reduce(already_reduced, elem)"),
+    F("C04", "join-fold-returns-seed", STOCKX, "            already_reduced = reduce(already_reduced,elem)\n\n        return already_reduced",
+      "            already_reduced = reduce(already_reduced,elem)\n\n        return initial", "JOIN/JoinedExpression/returns-initial"),
+    F("C04", "join-partition-overlap", STOCKX, "        tail = names[-2:]\n        rest = names[:-2]\n\n        already_reduced = initial = {\n\t\t\t\"name\"",
+      "        tail = names[-2:]\n        rest = names[:-1]\n\n        already_reduced = initial = {\n\t\t\t\"name\"", "JOIN/JoinedExpression/partition"),
+    # closure: binding the value as a default argument is the standard repair
+    S("C09", "step-constants-bound-default", SDRUN, "                                sc.sd_simulation.change_equation(name=name, value=value)",
+      "                                sc.sd_simulation.change_equation(name=name, value=(lambda t, value=value: value) if callable(value) else value)"),
+    # STALE: rebinding on every iteration is fine
+    S("C06", "step-settings-rebound-each-iteration", SDRUN, "            # now the settings relevant for this step\n",
+      "            # now the settings relevant for this step\n            step_settings = {}\n            if settings and scenario_manager in settings and scenario in settings[scenario_manager]:\n"
+      "                step_settings = settings[scenario_manager][scenario]\n            log(str(step_settings))\n"),
+    # partial file list: the complete list under another name
+    S("C07", "base-values-from-complete-list-alias", SMFAC,
+      "                manager.base_constants = self.__get_all_base_constants(scenario_manager_name, self.scenario_files)",
+      "                all_files = self.scenario_files\n                manager.base_constants = self.__get_all_base_constants(scenario_manager_name, all_files)"),
+    # AXIS
+    S("C10", "axis-loop-vars-renamed", ELEM, "                        for i in range(dims[0]):\n                            for j in range(dims[1]):\n                                self[i][j].equation = equation.clone_with_index([i, j])",
+      "                        for row in range(dims[0]):\n                            for col in range(dims[1]):\n                                self[row][col].equation = equation.clone_with_index([row, col])"),
+    F("C10", "axis-swapped-index-list", ELEM, "                                self[i][j] = equation.clone_with_index([i, j])",
+      "                                self[i][j] = equation.clone_with_index([j, i])", "AXIS/Element._handle_arrayed/list:clone_with_index"),
+    # shared id list
+    S("C14", "reset-dict-comprehension", MODEL, "        for agent_type in self.agent_type_map:\n            self.agent_type_map[agent_type] = []\n\n        self.agents = []\n\n",
+      "        self.agent_type_map = {agent_type: [] for agent_type in self.agent_type_map}\n\n        self.agents = []\n\n"),
+    # timeout pass-through
+    S("C17", "saved-timeout-copied", ADAPT, '                "timeout": state.timeout,', '                "timeout": dict(state.timeout),'),
+    F("C17", "loaded-timeout-from-step", ADAPT, '            timeout = instance_data["data"]["timeout"]', '            timeout = instance_data["data"]["step"]', "WIRING/FileAdapter._load_instance/timeout"),
+    # step order
+    S("C19", "compress-results-sorted-numeric", COMPR, "    for step in results.keys():\n        # loop over all scenario managers in the step",
+      "    for step in sorted(results.keys(), key=float):\n        # loop over all scenario managers in the step"),
+    # truncation / externalise after step
+    S("C20", "state-file-private-and-truncated", ADAPT,
+      '        f = open(os.path.join(self.path, str(state.instance_id) + ".json"), "w")\n        f.write(jsonpickle.dumps(data))\n        f.close()',
+      '        fd = os.open(os.path.join(self.path, str(state.instance_id) + ".json"), os.O_WRONLY | os.O_CREAT | os.O_TRUNC, 0o600)\n'
+      '        with os.fdopen(fd, "w") as f:\n            f.write(jsonpickle.dumps(data))'),
+    F("C20", "state-file-appended", ADAPT, '        f = open(os.path.join(self.path, str(state.instance_id) + ".json"), "w")',
+      '        f = open(os.path.join(self.path, str(state.instance_id) + ".json"), "a")', "ATOMIC/FileAdapter._save_instance/not-truncated"),
+    S("C20", "save-adapter-local-alias", SRV, "            resp = make_response('{\"error\": \"no data was returned from run_step\"}', 500)\n\n        if self._external_state_adapter != None:\n            self._external_state_adapter.save_instance(",
+      "            resp = make_response('{\"error\": \"no data was returned from run_step\"}', 500)\n\n        if self._external_state_adapter is not None:\n            self._external_state_adapter.save_instance(", count="all"),
+    # scalar lockset: a local is not shared
+    S("C08", "memo-key-local-cache", MODEL, "        normalized_arg= fp.normalize(", "        key_cache = None\n        normalized_arg= fp.normalize("),
+    # last step: >= against the bounds is the same test inside the loops
+    S("C12", "last-step-geq", SIM, "if sim_round == model.stoptime and step == (round(1 / model.dt) - 1):", "if sim_round >= model.stoptime and step >= (round(1 / model.dt) - 1):"),
+]
+
+VARIANTS += [
+    S("C02", "numeric-guarded-compare", FUNCS, "def exp(x): return Exp(x)", "def exp(x):\n    if isinstance(x, (int, float)) and x == 0:\n        return Exp(0.0)\n    return Exp(x)"),
+    S("C06", "correlated-branches", SDRUN,
+      "                        if \"constants\" in settings[scenario_manager][scenario]:\n                            constants = settings[scenario_manager][scenario][\"constants\"]\n                            for name, value in constants.items():\n                                sc.sd_simulation.change_equation(name=name, value=value)",
+      "                        if \"constants\" in settings[scenario_manager][scenario]:\n                            constants = settings[scenario_manager][scenario][\"constants\"]\n"
+      "                        if \"constants\" in settings[scenario_manager][scenario]:\n                            for name, value in constants.items():\n                                sc.sd_simulation.change_equation(name=name, value=value)"),
+    dict(prop="C20", kind="S", name="save-through-helper", count="all", edits=[
+        (SRV, "    def _run_steps_resource(self, instance_uuid):",
+         "    def _externalise(self, instance_uuid):\n        if self._external_state_adapter != None:\n            self._external_state_adapter.save_instance(self._instance_manager._get_instance_state(instance_uuid))\n\n"
+         "    def _run_steps_resource(self, instance_uuid):"),
+        (SRV, "            resp = make_response('{\"error\": \"no data was returned from run_step\"}', 500)\n\n        if self._external_state_adapter != None:\n            self._external_state_adapter.save_instance(self._instance_manager._get_instance_state(instance_uuid))\n",
+         "            resp = make_response('{\"error\": \"no data was returned from run_step\"}', 500)\n\n        self._externalise(instance_uuid)\n"),
+    ]),
+]
